@@ -273,14 +273,14 @@ CHART_SHAPES = "charts: root {acc: node, bank: leaf}; a node has an optional fix
 CHECKS["C30"] = {
     "level": "other",
     "explanation": "Every chart of a bounded shape family is decoded by the real ChartOfAccounts/ChartSegment.UnmarshalJSON, marshalled by the real MarshalJSON methods and decoded again (also inside the SchemaData envelope), all through the JSON-tree model; then a symbolic address (1-3 segments, each an SMT string over the segment alphabet) is classified by the real findAccountSchema against both charts: same accept/reject verdict and same default metadata before and after the round trip. The decoders range over Go maps: for depth-1 charts every iteration order of each map of 2-3 entries is explored as a fork (first decode, second decode), since Go leaves the order unspecified.",
-    "bounds": {"quick": CHART_SHAPES + "; depth 1 (the node's children are leaves); addresses of <= 3 segments of <= 3 bytes; map orders: maps of <= 3 entries, addresses of <= 2 segments", "thorough": "depth 2 (children of the node may be nodes); map orders with addresses of <= 3 segments"},
+    "bounds": {"quick": CHART_SHAPES + "; depth 1 (the node's children are leaves); addresses of <= 3 segments of <= 3 bytes; map orders: maps of <= 3 entries, addresses of <= 2 segments", "thorough": "reduced depth 2: a child of the node may itself be a node of a slim sub-family (optional fixed child, optional ^[0-9]+$ variable child, optional .self); map orders with addresses of <= 3 segments. The full depth-2 family (Harness_CHART_d2_len3, kept in the harness file) needs more than two hours and ~20 GB and is not registered"},
     "outside": "transaction templates and query templates of a schema (compared under C37); the text layer of encoding/json and the jsonb column (the tree model assumes they preserve the tree); charts outside the family; strings.Split of the address (findAccountSchema is called with the segment list)",
     "assumptions": COMMON_ASSUME + ["encoding/json is modelled as a JSON tree (see C07)", "regexp patterns are translated to SMT-LIB regular expressions"],
     "units": [
         unit("./internal", ["core/chart.go"], "^Harness_CHART_d1_", QT, flags={"labels": "^(C30:|no-panic)", "max-paths": 200000, "max-decisions": 2000}, reach=["end"]),
         unit("./internal", ["core/chart.go"], "^Harness_CHART_order1_", QT, flags={"labels": "^(C30:|no-panic)", "max-paths": 200000, "max-decisions": 2000}, reach=["end"]),
         unit("./internal", ["core/chart.go"], "^Harness_CHART_order2_", QT, flags={"labels": "^(C30:|no-panic)", "max-paths": 200000, "max-decisions": 2000}, reach=["end"]),
-        unit("./internal", ["core/chart.go"], "^Harness_CHART_d2_", T, flags={"labels": "^(C30:|no-panic)", "max-paths": 2000000, "max-decisions": 3000}, reach=["end"], timeout_s=7000),
+        unit("./internal", ["core/chart.go"], "^Harness_CHART_d2r_", T, flags={"labels": "^(C30:|no-panic)", "max-paths": 400000, "max-decisions": 3000}, reach=["end"], timeout_s=3000),
         unit("./internal", ["core/chart.go"], "^Harness_CHART_orderT[12]_", T, flags={"labels": "^(C30:|no-panic)", "max-paths": 400000, "max-decisions": 2000}, reach=["end"], timeout_s=3000),
     ],
 }
@@ -289,14 +289,14 @@ CHECKS["C30"] = {
 CHECKS["C29"] = {
     "level": "other",
     "explanation": "(a) Chart semantics: the real ChartOfAccounts.UnmarshalJSON + findAccountSchema against an independent declarative acceptance predicate evaluated on the JSON the chart was written in (a fixed sub-segment named like the address segment is taken, and only then; otherwise the variable sub-segment when its pattern matches; the last segment must land on an account node), for every chart of a bounded shape family and a symbolic address; the default metadata of the matched account is the reference's. (b) Enforcement: the real runLog/createTransaction/saveAccountMetadata/ValidateWithSchema/AccountsWithDefaultMetadata on the store model, enforcement mode strict/audit x schema version missing/known/unknown x transaction templates defined/used, the destination account carrying a symbolic segment: in strict mode an accepted write names an existing schema, its posting accounts are accepted by the chart, and a template is used when templates exist; a refusal carries the matching error and leaves no effect; audit mode only logs; chart default metadata is applied on the first insert of an account and never re-applied.",
-    "bounds": {"quick": CHART_SHAPES + "; depth 1; addresses of <= 3 segments of <= 3 bytes; (b) one chart (fixed, pattern-variable and nested fixed segments), 13 mode/version/template combinations (incl. a request naming a template and carrying its own script)", "thorough": "chart depth 2"},
+    "bounds": {"quick": CHART_SHAPES + "; depth 1; addresses of <= 3 segments of <= 3 bytes; (b) one chart (fixed, pattern-variable and nested fixed segments), 13 mode/version/template combinations (incl. a request naming a template and carrying its own script)", "thorough": "reduced chart depth 2 (second level from a slim sub-family; the full depth-2 family does not finish dependably: > 2 h, ~20 GB)"},
     "outside": "charts outside the family; strings.Split of the address in (a); revert / metadata-only writes under a schema other than saveAccountMetadata; the interpreter runtime",
     "assumptions": COMMON_ASSUME + DBMODEL_ASSUME,
     "units": [
         unit("./internal", ["core/chart.go"], "^Harness_CHART_d1_", QT, flags={"labels": "^(C29:|no-panic)", "max-paths": 200000, "max-decisions": 2000}, reach=["end"]),
         unit(CTRL_PKG, CTRL_FILES, "^Harness_SCHEMA_", QT, flags={"labels": "^(C29:|no-panic)", "max-decisions": 4000}, reach=["end"]),
         unit("./internal", ["core/chart.go"], "^Harness_CHART_order1_", QT, flags={"labels": "^(C29:|no-panic)", "max-paths": 200000, "max-decisions": 2000}, reach=["end"]),
-        unit("./internal", ["core/chart.go"], "^Harness_CHART_d2_", T, flags={"labels": "^(C29:|no-panic)", "max-paths": 2000000, "max-decisions": 3000}, reach=["end"], timeout_s=7000),
+        unit("./internal", ["core/chart.go"], "^Harness_CHART_d2r_", T, flags={"labels": "^(C29:|no-panic)", "max-paths": 400000, "max-decisions": 3000}, reach=["end"], timeout_s=3000),
     ],
 }
 
